@@ -3,6 +3,7 @@ package main
 import (
 	"fmt"
 	"go/ast"
+	"go/token"
 	"go/types"
 	"strconv"
 	"strings"
@@ -89,7 +90,25 @@ func ExpandTable(p *Program, db *ContractDB, fc *FnContract) ([]*FnContract, err
 }
 
 // VerifyFunction generates all obligations of fn under its contract fc.
-func VerifyFunction(p *Program, db *ContractDB, fc *FnContract) (res *FnResult) {
+// VerifyFunction generates the obligations of one function under contract. Heap regions are discovered lazily while the
+// body is executed; when a whole-heap frame condition (frame_only) was evaluated before all regions were known, the
+// function is executed again with the full region set known from the start.
+func VerifyFunction(p *Program, db *ContractDB, fc *FnContract) *FnResult {
+	var pre map[string]Sort
+	for pass := 0; ; pass++ {
+		res := verifyFunctionPass(p, db, fc, pre)
+		x := res.Exec
+		if x == nil || pass >= 2 || x.frameEvals == 0 || len(x.regionSort) <= x.minRegionsAtFrame {
+			return res
+		}
+		pre = map[string]Sort{}
+		for r, s := range x.regionSort {
+			pre[r] = s
+		}
+	}
+}
+
+func verifyFunctionPass(p *Program, db *ContractDB, fc *FnContract, preRegions map[string]Sort) (res *FnResult) {
 	res = &FnResult{Name: fc.Name, Contract: fc}
 	fn := fc.Fn
 	if fn == nil {
@@ -97,6 +116,9 @@ func VerifyFunction(p *Program, db *ContractDB, fc *FnContract) (res *FnResult) 
 		return res
 	}
 	x := NewExec(p, db, fn)
+	for r, s := range preRegions {
+		x.regionSort[r] = s
+	}
 	res.Exec = x
 	res.Ctx = x.C
 	defer func() {
@@ -276,7 +298,19 @@ func VerifyFunction(p *Program, db *ContractDB, fc *FnContract) (res *FnResult) 
 			t = TTrue
 			note += " (syntactic: every store targets an object allocated by the function itself)"
 		}
-		o := x.C.AddObligation(fc.Name+"#post:assigns-frame", "frame", fc.Name, st.PC, x.C.Name("frame", t), note)
+		var o *Obligation
+		if x.oldWrites != 0 && len(env2.LastFrame) > 1 {
+			// one solver query per heap region
+			for k, cj := range env2.LastFrame {
+				if k < len(env2.LastFrameRegions) && x.regionClean(env2.LastFrameRegions[k]) {
+					// syntactic: every store into this region went to an object allocated by the function itself
+					cj = TTrue
+				}
+				o = x.C.AddObligation(fc.Name+"#post:assigns-frame", "frame", fc.Name, st.PC, x.C.Name("frame", cj), note)
+			}
+		} else {
+			o = x.C.AddObligation(fc.Name+"#post:assigns-frame", "frame", fc.Name, st.PC, x.C.Name("frame", t), note)
+		}
 		o.Detail = "assigns frame"
 	}
 	// size hints for replayable models: small slices
@@ -364,6 +398,7 @@ func (x *Exec) applyContract(fr *Frame, st *State, fn *ssa.Function, fc *FnContr
 		// allocation may happen in callee
 		nb := x.C.Fresh("brk", SRef)
 		x.C.Assume(bvCmp("bvuge", nb, st.Brk), "allocator monotone across call")
+		x.C.NoteRefGE(nb.S, st.Brk.S)
 		st.Brk = nb
 	}
 	results := x.havocResults(st, fn.Signature, fn.Name())
@@ -382,7 +417,6 @@ func (x *Exec) applyContract(fr *Frame, st *State, fn *ssa.Function, fc *FnContr
 // havocLValue: assigns clause. Forms: `*p`, `p.f`, `p.f[i]`, `s[*]` (all elements of slice s), `heap(T)`.
 func (x *Exec) havocLValue(env *EvalEnv, st *State, cl Clause) error {
 	txt := strings.TrimSpace(cl.Text)
-	x.oldWrites++
 	if strings.HasSuffix(txt, "[*]") {
 		v, err := env.Eval(cl.Expr)
 		if err != nil {
@@ -397,7 +431,8 @@ func (x *Exec) havocLValue(env *EvalEnv, st *State, cl Clause) error {
 		h := x.heapGet(st, r, hs)
 		fresh := x.C.Fresh("hv_elems", SArr(SIdx, x.C.SortOf(elem)))
 		// the whole backing array may change (same meaning as elems(s) in frame_only); ensures clauses say more
-		x.heapSet(st, r, Store(h, SlBase(tv.T), fresh))
+		x.noteWrite(SlBase(tv.T), r)
+		x.heapSet(st, r, Ite(Eq(SlBase(tv.T), BVInt(0, 32)), h, Store(h, SlBase(tv.T), fresh)))
 		return nil
 	}
 	lv, err := x.evalLValue(env, cl.Expr)
@@ -444,7 +479,60 @@ func matchLoop(fr *Frame, L *Loop, fc *FnContract) *LoopContract {
 		cl, err := parseClause(txt)
 		if err == nil {
 			cl.Label = "default"
-			return &LoopContract{Key: fmt.Sprintf("#%d(default)", L.Ordinal), Invariants: []Clause{cl}}
+			invs := []Clause{cl}
+			// canonical counted loops `for i := c; ...; i++` over a signed counter: the counter never drops below
+			// its start value (a candidate like any other invariant: it is checked, not assumed)
+			for _, ins := range L.Header.Instrs {
+				phi, ok := ins.(*ssa.Phi)
+				if !ok {
+					break
+				}
+				_, signed, isInt := isInteger(phi.Type())
+				if !isInt || !signed || phi.Comment == "" || len(phi.Edges) != 2 {
+					continue
+				}
+				for k := 0; k < 2; k++ {
+					c, ok1 := phi.Edges[k].(*ssa.Const)
+					b, ok2 := phi.Edges[1-k].(*ssa.BinOp)
+					if !ok1 || !ok2 || b.Op != token.ADD || b.X != ssa.Value(phi) || c.Value == nil {
+						continue
+					}
+					if step, ok := b.Y.(*ssa.Const); !ok || step.Value == nil || step.Int64() < 0 {
+						continue
+					}
+					if ccl, err := parseClause(fmt.Sprintf("%s >= %d", phi.Comment, c.Int64())); err == nil {
+						ccl.Label = "default"
+						invs = append(invs, ccl)
+					}
+					// range loops test `index+1 < n` in the header: the index stays below n (no wrap of index+1)
+					if phi.Comment == "rangeindex" {
+						for _, hi := range L.Header.Instrs {
+							cmp, ok := hi.(*ssa.BinOp)
+							if !ok || cmp.Op != token.LSS || cmp.X != ssa.Value(b) {
+								continue
+							}
+							bound := ""
+							switch y := cmp.Y.(type) {
+							case *ssa.Const:
+								if y.Value != nil {
+									bound = fmt.Sprint(y.Int64())
+								}
+							default:
+								if y.Name() != "" {
+									bound = "__ssa_" + y.Name()
+								}
+							}
+							if bound != "" {
+								if ccl, err := parseClause(fmt.Sprintf("%s < %s || %s == -1", phi.Comment, bound, phi.Comment)); err == nil {
+									ccl.Label = "default"
+									invs = append(invs, ccl)
+								}
+							}
+						}
+					}
+				}
+			}
+			return &LoopContract{Key: fmt.Sprintf("#%d(default)", L.Ordinal), Invariants: invs}
 		}
 	}
 	return nil
